@@ -282,7 +282,7 @@ func c13RunOnce(ops []WOp, level int, calls []int, probe bool, choices []bool, k
 			nf++
 		}
 	}
-	faultFlavour = (level+len(calls)+nf)%5 - 1
+	faultFlavour = (level+len(calls)+nf)%6 - 1
 	defer func() { faultFlavour = -1 }()
 	inCall := 0
 	scheduled := true
